@@ -14,6 +14,9 @@ let () =
     let lines = impl_lines impl k in
     let rl = List.filter (fun l -> String.length l > 2 && String.sub l 0 2 = "R ") lines in
     (match rl with
+     | ["R DEADLOCK"] ->
+       Printf.printf "CASE %d stress\n" k;
+       Printf.printf "FAIL %d deadlock the case was still running after 45 s: some thread is blocked forever (every wait in the case is bounded)\n" k
      | [r] ->
        let kv = List.filter_map (fun t -> match split_on '=' t with [a; b] -> Some (a, b) | _ -> None) (split_on ' ' r) in
        let get key = try List.assoc key kv with Not_found -> "?" in
